@@ -13,6 +13,13 @@ NOTE = ("Trusted base: clang 14 front end + CFG builder on the flags of the comp
 
 CLAIMS = {
     # pid: (technique, level text, design_ref)
+    "C09": ("closed-form table agreement: numeric extraction of the UTF-8 encoder/decoder branch tables and of the UTF-16 surrogate arithmetic from the expression trees, exhaustiveness of the encoding switches, who-may-write for cpd.enc/cpd.bom and who-may-call for the byte writers",
+            "For all six UTF-8 lengths the encoder's bit fields are shown disjoint and covering, its thresholds equal 2^(payload "
+            "bits), and the decoder's lead masks, payload masks, continuation counts and per-length minimum (overlong rejection) "
+            "agree with it; UTF-16 surrogate constants and byte order agree between get_word/decode_utf16 and write_utf16; "
+            "write_char/write_bom cover every char_encoding_e value with the decoder's endianness; cpd.enc/cpd.bom change only in "
+            "uncrustify_file by the documented policy table. These equalities hold for every code point, which is the exhaustive "
+            "1.1M-scalar quantifier in closed form. The two-run transcoding equation itself is not decided.", "DESIGN.md section 4 C09"),
     "C10": ("who-may-call over the call graph reachable from main; purity (effect) summaries propagated bottom-up and applied to every node that is control-dependent on log_sev_on() and to the observer entry points; banned-callee and pointer-order queries with a positive example",
             "All delivery modes are shown to reach output_text only through uncrustify_file with the loaded file_mem; each of the ~16000 "
             "nodes that execute only when a log severity is enabled (all LOG_FMT arguments included) and every logging/dump/parsed-"
